@@ -57,6 +57,20 @@ Theorem c10_cwnd_floor_init : forall mtu mincwnd, 0 < mtu < 1073741824 ->
 Proof. exact init_cwnd_floor. Qed.
 Print Assumptions c10_cwnd_floor_init.
 
+(* ... and on a loss detected by RACK (on a SACK or by the RACK timer), after fix (D26): outside fast recovery
+   cwnd and ssthresh drop to max(cwnd/2, 4*MTU) (cwnd never below the configured minimum), partial_bytes_acked is
+   cleared and fast recovery is entered, once per window of data *)
+Theorem c10_rack_loss_is_a_cut : forall s, 0 < st_mtu s < 1073741824 ->
+  (st_infr s = true -> rack_cut s = s) /\
+  (st_infr s = false ->
+     st_infr (rack_cut s) = true /\ st_pba (rack_cut s) = 0 /\
+     st_ssthresh (rack_cut s) = Z.max (st_cwnd s / 2) (4 * st_mtu s) /\
+     st_cwnd (rack_cut s) = Z.max (Z.max (st_cwnd s / 2) (4 * st_mtu s)) (st_mincwnd s) /\
+     st_mtu s <= st_cwnd (rack_cut s) /\ st_mincwnd s <= st_cwnd (rack_cut s) /\
+     (4 * st_mtu s <= st_cwnd s -> st_mincwnd s <= st_cwnd s -> st_cwnd (rack_cut s) <= st_cwnd s)).
+Proof. exact rack_cut_spec. Qed.
+Print Assumptions c10_rack_loss_is_a_cut.
+
 (* fragments are at most maxPayloadSizeForMTU, and a packet with one such DATA chunk fits the MTU
    (generated definitions: association.go maxPayloadSizeForMTU) *)
 Theorem c10_fragment_fits_mtu : forall mtu il, in32 mtu ->
